@@ -2,39 +2,50 @@
 
    A small transition system for ONE attached (or attaching) peer and the
    goroutines that can touch its outbound channel: the attach path, the
-   session's handler goroutine with its exit path, and the broker / dealer
-   goroutines, which send to the session while it is in their tables.  The
-   places where the code closes a peer are not written here: they are the
-   [SPeerClose] entries of the generated inventory, each acting according to
-   the classification the translator derived for it (exit path after the
-   handler loop and after removal from the tables / attach path before a
-   handler exists / anywhere else).  Definitions only.
-
-   Not in this model (owned by C06, Conc/Shutdown): the WELCOME that
-   AttachClient sends after the handler was started, Router.Close. *)
+   session's handler goroutine with its exit path, the broker / dealer
+   goroutines, which send to the session while it is in their tables and they
+   are running, and realm shutdown.  The places where the code closes a peer
+   are not written here: they are the [SPeerClose] entries of the generated
+   inventory, each acting according to the classification the translator
+   derived for it:
+     CPExit      the goroutine that ran the handler loop, after the loop and
+                 after the session was deleted from broker / dealer tables;
+     CPPreSession the attach path, before a handler exists for the peer;
+     CPShutdown  realm shutdown, after broker and dealer have stopped, for a
+                 session whose handler exited at shutdown leaving the peer open;
+     CPOther     anywhere else.
+   Definitions only.  Router.Close / RemoveRealm as a whole is C06's
+   (Conc/Shutdown); only what closes a client peer appears here. *)
 From Coq Require Import List Bool Arith.
 From Nexus Require Import Safety.Sites.
 Import ListNotations.
 
 Inductive aphase := APre | AStarted | AAborted.
-Inductive hphase := HNone | HRunning | HExited.
+Inductive hphase :=
+| HNone            (* no handler yet *)
+| HRunning
+| HParked          (* handler exited at realm shutdown: session still in the tables, peer open *)
+| HExited.         (* handler exited and closed the peer (or the realm did, at shutdown) *)
 
 Record pstate := {
   chan_closed : bool;     (* the peer's outbound channel has been closed *)
   att : aphase;
   hnd : hphase;
   in_broker : bool;       (* the broker's tables reference the session *)
-  in_dealer : bool
+  in_dealer : bool;
+  stopped : bool          (* broker and dealer goroutines have stopped *)
 }.
 
 Definition init : pstate :=
-  {| chan_closed := false; att := APre; hnd := HNone; in_broker := false; in_dealer := false |}.
+  {| chan_closed := false; att := APre; hnd := HNone; in_broker := false; in_dealer := false; stopped := false |}.
 
 Inductive event :=
 | EStartHandler                 (* handleSession: go handler *)
 | EJoin (broker dealer : bool)  (* the handler processed SUBSCRIBE / REGISTER / CALL *)
 | EHandlerSend                  (* the handler goroutine replies on the session's channel *)
 | ERouterSend (from_broker : bool) (* broker / dealer goroutine sends to the session *)
+| EShutdownExit                 (* the handler exits because the realm shuts down *)
+| EStop                         (* realm.close: handlers awaited, then dealer.close(), broker.close() *)
 | EClose (i : nat).             (* the i-th peer-close site of the inventory executes *)
 
 Inductive cres :=
@@ -49,32 +60,43 @@ Definition do_close (s : pstate) (s' : pstate) : cres :=
 Definition do_send (s : pstate) : cres :=
   if chan_closed s then CPanicSendClosed else CStep s.
 
+Definition upd (s : pstate) (c : bool) (a : aphase) (h : hphase) (b d st : bool) : pstate :=
+  {| chan_closed := c; att := a; hnd := h; in_broker := b; in_dealer := d; stopped := st |}.
+
 Definition step (sites : list closepath) (s : pstate) (e : event) : cres :=
   match e with
   | EStartHandler =>
-      match att s, hnd s with
-      | APre, HNone => CStep {| chan_closed := chan_closed s; att := AStarted; hnd := HRunning;
-                                in_broker := in_broker s; in_dealer := in_dealer s |}
-      | _, _ => CDisabled
+      match att s, hnd s, stopped s with
+      | APre, HNone, false => CStep (upd s (chan_closed s) AStarted HRunning (in_broker s) (in_dealer s) false)
+      | _, _, _ => CDisabled
       end
   | EJoin b d =>
       match hnd s with
-      | HRunning => CStep {| chan_closed := chan_closed s; att := att s; hnd := hnd s;
-                             in_broker := in_broker s || b; in_dealer := in_dealer s || d |}
+      | HRunning => CStep (upd s (chan_closed s) (att s) (hnd s) (in_broker s || b) (in_dealer s || d) (stopped s))
       | _ => CDisabled
       end
   | EHandlerSend =>
       match hnd s with HRunning => do_send s | _ => CDisabled end
   | ERouterSend fb =>
-      if (if fb then in_broker s else in_dealer s) then do_send s else CDisabled
+      if (if fb then in_broker s else in_dealer s) && negb (stopped s) then do_send s else CDisabled
+  | EShutdownExit =>
+      match hnd s with
+      | HRunning => CStep (upd s (chan_closed s) (att s) HParked (in_broker s) (in_dealer s) (stopped s))
+      | _ => CDisabled
+      end
+  | EStop =>
+      (* realm.close waits for every handler before it stops dealer and broker *)
+      match hnd s with
+      | HRunning => CDisabled
+      | _ => CStep (upd s (chan_closed s) (att s) (hnd s) (in_broker s) (in_dealer s) true)
+      end
   | EClose i =>
       match nth_error sites i with
       | None => CDisabled
       | Some CPPreSession =>
           (* attach path: only while no handler exists for the peer *)
           match att s, hnd s with
-          | APre, HNone => do_close s {| chan_closed := true; att := AAborted; hnd := HNone;
-                                         in_broker := in_broker s; in_dealer := in_dealer s |}
+          | APre, HNone => do_close s (upd s true AAborted HNone (in_broker s) (in_dealer s) (stopped s))
           | _, _ => CDisabled
           end
       | Some (CPExit after_loop rb rd) =>
@@ -82,18 +104,25 @@ Definition step (sites : list closepath) (s : pstate) (e : event) : cres :=
              after the loop it can execute while the handler is still running *)
           match hnd s with
           | HRunning =>
-              do_close s {| chan_closed := true; att := att s;
-                            hnd := if after_loop then HExited else HRunning;
-                            in_broker := in_broker s && negb rb;
-                            in_dealer := in_dealer s && negb rd |}
+              do_close s (upd s true (att s) (if after_loop then HExited else HRunning)
+                              (in_broker s && negb rb) (in_dealer s && negb rd) (stopped s))
+          | _ => CDisabled
+          end
+      | Some (CPShutdown sb sd) =>
+          (* realm.close closing the parked sessions; if the close is not
+             ordered after both stops it can run while they still send *)
+          match hnd s with
+          | HParked =>
+              if stopped s || negb (sb && sd)
+              then do_close s (upd s true (att s) HExited (in_broker s) (in_dealer s) (stopped s))
+              else CDisabled
           | _ => CDisabled
           end
       | Some CPOther =>
           (* some goroutine working on a message of the session closes the
              peer; the handler keeps running *)
           match hnd s with
-          | HRunning => do_close s {| chan_closed := true; att := att s; hnd := HRunning;
-                                      in_broker := in_broker s; in_dealer := in_dealer s |}
+          | HRunning => do_close s (upd s true (att s) HRunning (in_broker s) (in_dealer s) (stopped s))
           | _ => CDisabled
           end
       end
